@@ -4,6 +4,7 @@
 
    Model/DrawScreen.v   draw_screen, _last_row, _attrspec_to_escape, clear, resize flag (tokens out)
    Model/TermRef.v      reference VT100/xterm interpreter over tokens (the specification of "terminal")
+   Model/HtmlGen.v      HtmlGenerator.draw_screen / html_span at the level of spans
    Model/PaintSpec.v    what "the terminal shows the canvas" means (visual cell equality), the
                         Screen/terminal invariant [Sync], reachable histories [Reach]
 
@@ -18,7 +19,7 @@
    (refuted), partial display mode (refuted). *)
 From Coq Require Import ZArith List Bool.
 Import ListNotations.
-From Urwid Require Import PyBase TermRef DrawScreen PaintSpec TermRefFacts DrawScreenProofs.
+From Urwid Require Import PyBase TermRef DrawScreen HtmlGen PaintSpec TermRefFacts DrawScreenProofs HtmlGenProofs.
 Open Scope Z_scope.
 
 (* --- the SGR parameter list urwid sends for an AttrSpec means, to the terminal, exactly the visual
@@ -81,6 +82,21 @@ Theorem redraw_same_canvas_writes_nothing :
     s_buf s <> [] -> rows = zlen content -> draw_screen c s cols rows content cursor true = Ok ([], s).
 Proof. exact draw_same_noop. Qed.
 Print Assumptions redraw_same_canvas_writes_nothing.
+
+(* --- the HTML screenshot back-end: for every canvas (any text incl. wide, zero-width and control
+       characters, any attributes that are defined) with or without cursor, whenever draw_screen does
+       not raise, the spans carry exactly the canvas text row by row (control characters as '?'), at
+       most one span has its colours swapped, it is a single character, and none without a cursor.
+       (HTML escaping and the colour strings are outside the model: the harness unescapes the real
+       output and compares colours through AttrSpec.get_rgb_values.) --- *)
+Theorem html_exact :
+  forall kinds maxrow rows cursor out,
+    html_draw kinds maxrow rows cursor = Ok out ->
+    map spans_text out = map row_text rows /\
+    0 <= total_swapped out <= 1 /\ (cursor = None -> total_swapped out = 0) /\
+    Forall one_char_highlights out.
+Proof. exact html_exact_lemma. Qed.
+Print Assumptions html_exact.
 
 (* --- REFUTED of the code as it is (witnesses replayed on the implementation: corpus/C04,
        known findings C04-ibmpc-charset-leaks-into-next-frame and
@@ -167,6 +183,12 @@ Example ex_terminal_bottom_row :
   | Err _ => False
   end.
 Proof. vm_compute. split; reflexivity. Qed.
+
+(* the HTML model on a row with a wide character under the cursor: three spans, the middle one swapped *)
+Example ex_html :
+  html_draw [0; 1] 1 [[(0, 0, [(97, 1); (19990, 2); (60, 1)]); (1, 0, [(1, 0)])]] (Some (2, 0))
+  = Ok [[HSpan 0 false [(97, 1)]; HSpan 0 true [(19990, 2)]; HSpan 0 false [(60, 1)]; HSpan 1 false [(63, 1)]]].
+Proof. vm_compute. reflexivity. Qed.
 
 (* a reachable history: start, draw, clear with garbage, redraw of the same canvas object *)
 Example ex_history :
